@@ -87,10 +87,12 @@ func needsJS(contentType, name string) bool {
 	if !strings.Contains(contentType, "javascript") {
 		return false
 	}
-	i := strings.LastIndex(name, ".")
+	// the extension of a name is that of its last path element: "v1.2/part" has none
+	base := name[strings.LastIndex(name, "/")+1:]
+	i := strings.LastIndex(base, ".")
 	ext := ""
 	if i >= 0 {
-		ext = name[i:]
+		ext = base[i:]
 	}
 	return ext != ".js" && ext != ""
 }
@@ -265,7 +267,7 @@ func c17Run(b *core.B) {
 		}
 		switch kind {
 		case 0, 1: // partial, names with different extensions
-			name := pick(r, []string{"part", "part.html", "part.js", "dir/part.plush.html"})
+			name := pick(r, []string{"part", "part.html", "part.js", "dir/part.plush.html", "v1.2/part", "./part", "../shared/part", "admin.v2/part.js", "admin.v2/part.html"})
 			kindName = "partial"
 			partials[name] = body
 			tmpl = pre + "<%= partial(\"" + name + "\", " + d.lit("") + ") %>" + post
@@ -276,8 +278,8 @@ func c17Run(b *core.B) {
 			}
 			want = pre + frag + post
 		case 2: // partial with layout
-			name := pick(r, []string{"part", "part.html", "part.js"})
-			lay := pick(r, []string{"lay", "lay.html", "lay.js"})
+			name := pick(r, []string{"part", "part.html", "part.js", "v1.2/part"})
+			lay := pick(r, []string{"lay", "lay.html", "lay.js", "./lay"})
 			kindName = "partial-with-layout"
 			partials[name] = body
 			partials[lay] = "L[<%= yield %>|<%= ci %>|<%= sv %>]"
